@@ -81,6 +81,18 @@ CLAIMED = {
              "the hard-swish table body.",
         technique="dynamic symbolic execution of the real Python functions over z3 bit-vector proxies (symx); compositional uninterpreted-function summaries; counterexample replay",
         design="DESIGN.md §3 C19"),
+    "C18": dict(
+        text="Bounded solver-guided exhaustive exploration of the real configuration code: ArchitectureFeatures._read_config (recursion "
+             "included) on every section graph of up to 4 sections (existence, inherit target later/self/missing, option presence) against "
+             "the documented child-over-parent rule and error cases; the real _get_vela_config with symbolic system ports, memory-mode areas "
+             "in child and parent, and a symbolic arena cache size in child/parent/CLI (defaults, CLI override, Sram->OnChipFlash remap, every "
+             "validation error); missing sections vs internal-default; and the value main() hands over when --arena-cache-size is absent, "
+             "extracted from main()'s AST on every run.",
+        note="Trusted: z3, symx proxies, the ConfigParser stand-in (has_section/has_option/get), OPTIONS.md as the source of the rules. "
+             "Outside: Dir/file.ini path lookup (closure in main() over the file system), INI parsing, inherit cycles of length >= 2. "
+             "One recorded finding (CLI default shadows the file) is reported as KNOWN-FINDING.",
+        technique="dynamic symbolic execution of the real Python functions over z3 proxies (symx), all feasible paths within the bound; AST extraction of the CLI binding; counterexample replay",
+        design="DESIGN.md §3 C18"),
 }
 
 NOT_APPLICABLE = {
